@@ -88,3 +88,23 @@ Definition shift_lane (sp : lane) : lane :=
   | LAdd i j => LAdd (S i) (S j) | LSub i j => LSub (S i) (S j) | LMulLit i b => LMulLit (S i) b | LDivLit i b => LDivLit (S i) b
   end.
 Definition spec_segment (sps : list lane) : list lane := LVar 0 :: map shift_lane sps.
+
+(* a table of (kernel, expected lanes): checked by computation, meaning by kernel_ok_sem *)
+Definition table_ok (t : list (list expr * list lane)) : bool :=
+  forallb (fun p => kernel_ok (snd p) (fst p)) t.
+Theorem table_ok_sem t : table_ok t = true ->
+  Forall (fun p => forall env, evals FOps0 env (fst p) = map (lane_sem env) (snd p)) t.
+Proof.
+  unfold table_ok. rewrite forallb_forall. intros H. apply Forall_forall. intros p Hin env.
+  apply kernel_ok_sem. now apply H.
+Qed.
+(* pairs of kernels that must compute identical bits (MulAssign vs Mul, by-ref vs by-value) *)
+Definition pairs_ok (t : list (list expr * list expr * list lane)) : bool :=
+  forallb (fun p => kernel_ok (snd p) (fst (fst p)) && kernel_ok (snd p) (snd (fst p))) t.
+Theorem pairs_ok_sem t : pairs_ok t = true ->
+  Forall (fun p => forall env, evals FOps0 env (fst (fst p)) = evals FOps0 env (snd (fst p))) t.
+Proof.
+  unfold pairs_ok. rewrite forallb_forall. intros H. apply Forall_forall. intros p Hin env.
+  specialize (H p Hin). apply andb_true_iff in H. destruct H as [H1 H2].
+  rewrite (kernel_ok_sem _ _ env H1), (kernel_ok_sem _ _ env H2). reflexivity.
+Qed.
